@@ -216,6 +216,65 @@ Definition data_steps (l : list tline) : list Z :=
 Definition calc_steps (evs : list tevent) : list Z :=
   flat_map (fun e => match e with TCalc it => [it] | _ => [] end) evs.
 
+(* ---- label text --------------------------------------------------------------------------------- *)
+(* cvm::wrap_string(s, n): pad with spaces to n characters, or cut to the first n; a label is the column's prefix
+   ("", "v_", "ft_", "E_", ...) followed by wrap_string(name, width - length prefix).  Characters are their codes. *)
+Definition wrap_string (s : list nat) (n : nat) : list nat :=
+  if (length s <=? n)%nat then s ++ repeat 32%nat (n - length s) else firstn n s.
+Definition label_text (prefix name : list nat) (width : nat) : list nat :=
+  prefix ++ wrap_string name (width - length prefix).
+(* what a reader splitting the line on blanks sees *)
+Fixpoint strip_trailing (l : list nat) : list nat :=
+  match l with
+  | [] => []
+  | c :: r => match strip_trailing r with
+              | [] => if (c =? 32)%nat then [] else [c]
+              | r' => c :: r'
+              end
+  end.
+Definition label_token (prefix name : list nat) (width : nat) : list nat := strip_trailing (label_text prefix name width).
+
+(* ---- which other files a step writes (colvarmodule::calc, colvarproxy::post_run) ------------------ *)
+(* FState: the state file (its `step` field is the step at which it is written); FColvar: the output files of the
+   variables (correlation functions); FBias b: the output files of bias b (histograms, PMFs, ...). The output
+   prefix is set. *)
+Inductive ofile := FState | FColvar | FBias (b : Z).
+Record ocfg := mkOC {
+  oc_restart_freq : Z;            (* restart_out_freq (colvarsRestartFrequency / the engine's) *)
+  oc_it_restart : Z;
+  oc_biases : list (Z * Z) }.     (* (bias, its outputFreq) in definition order *)
+
+Definition at_freq (c : ocfg) (f it : Z) : bool :=
+  negb (f =? 0) && (0 <? it - oc_it_restart c) && (it mod f =? 0).
+
+(* colvarmodule::calc(): restart file + variables' files at the restart frequency; each bias's files at its own *)
+Definition out_calc (c : ocfg) (it : Z) : list ofile :=
+  (if at_freq c (oc_restart_freq c) it then [FState; FColvar] else []) ++
+  flat_map (fun bf : Z * Z => if at_freq c (snd bf) it then [FBias (fst bf)] else []) (oc_biases c).
+
+(* colvarproxy::post_run() -> write_restart_file + colvarmodule::write_output_files(): everything that calc() has
+   not already written at this step *)
+Definition out_end (c : ocfg) (it : Z) : list ofile :=
+  FState ::
+  (if at_freq c (oc_restart_freq c) it then [] else [FColvar]) ++
+  flat_map (fun bf : Z * Z => if negb (at_freq c (snd bf) it) then [FBias (fst bf)] else []) (oc_biases c).
+
+Inductive oevent := OCalc (it : Z) | OEnd (it : Z).
+Definition out_event (c : ocfg) (e : oevent) : list (Z * ofile) :=
+  match e with
+  | OCalc it => map (fun f => (it, f)) (out_calc c it)
+  | OEnd it => map (fun f => (it, f)) (out_end c it)
+  end.
+Definition out_run (c : ocfg) (evs : list oevent) : list (Z * ofile) := flat_map (out_event c) evs.
+
+Definition ofile_eqb (a b : ofile) : bool :=
+  match a, b with
+  | FState, FState => true | FColvar, FColvar => true | FBias x, FBias y => x =? y | _, _ => false
+  end.
+(* the steps at which file k is written *)
+Definition writes_of (k : ofile) (l : list (Z * ofile)) : list Z :=
+  flat_map (fun w : Z * ofile => if ofile_eqb (snd w) k then [fst w] else []) l.
+
 Local Close Scope Z_scope.
 
 (* =================================================================================================
@@ -298,6 +357,46 @@ Section Analysis.
         let '(s1, o) := runave_step L stride it0 s prev t x in
         (match o with Some l => [l] | None => [] end) ++ runave_run L stride it0 s1 (Some t) r
     end.
+
+  (* ---- C'. running average for any value type ------------------------------------------------- *)
+  (* colvar::calc_runave written over the operations of colvarvalue it uses: += , *= real, apply_constraints(),
+     and colvar::dist2 (the metric of the variable: periodic image for periodic scalars, angle for unit vectors) *)
+  Section RunaveV.
+    Context {V : Type}.
+    Record vops := mkVops {
+      vo_add : V -> V -> V; vo_scale : T -> V -> V;
+      vo_near : V -> V -> V;        (* vo_near x xi: the representative of xi that is summed when the current value is x
+                                       (periodic scalars: the image closest to x; otherwise xi itself) *)
+      vo_constrain : V -> V;        (* apply_constraints() followed by colvar::wrap() *)
+      vo_dist2 : V -> V -> T }.
+    Variable P : vops.
+    Record rstateV := mkRSV { rv_init : bool; rv_hist : list V }.
+    Definition rv0 : rstateV := mkRSV false [].
+    Definition rlineV : Type := (nat * V * T * T)%type.
+
+    Definition runaveV_step (L stride it0 : nat) (s : rstateV) (prev : option nat) (step_rel : nat) (x : V)
+      : rstateV * option rlineV :=
+      if negb (rv_init s) then (mkRSV true [], None)
+      else if (step_rel mod stride =? 0)%nat && after_prev prev step_rel then
+        let out :=
+          if (L - 1 <=? length (rv_hist s))%nat then
+            let av := vo_constrain P (vo_scale P (ndiv O (n1 O) (ofnat L)) (fold_left (vo_add P) (map (vo_near P x) (rv_hist s)) x)) in
+            let var0 := fold_left (fun acc xi => nadd O acc (vo_dist2 P xi av)) (rv_hist s)
+                                  (nadd O (n0 O) (vo_dist2 P x av)) in
+            let var := nmul O var0 (ndiv O (n1 O) (ofnat (L - 1))) in
+            Some ((it0 + step_rel)%nat, av, var, nsqrt O var)
+          else None in
+        (mkRSV true (firstn (L - 1) (x :: rv_hist s)), out)
+      else (s, None).
+
+    Fixpoint runaveV_run (L stride it0 : nat) (s : rstateV) (prev : option nat) (h : list (nat * V)) : list rlineV :=
+      match h with
+      | [] => []
+      | (t, x) :: r =>
+          let '(s1, o) := runaveV_step L stride it0 s prev t x in
+          (match o with Some l => [l] | None => [] end) ++ runaveV_run L stride it0 s1 (Some t) r
+      end.
+  End RunaveV.
 
   (* ---- D. time-correlation function ----------------------------------------------------------- *)
   Section Acf.
@@ -391,6 +490,47 @@ Section Analysis.
   Definition p2leg (stored now : list T) : T :=
     let c := ndiv O (vdot stored now) (nmul O (nsqrt O (vnorm2 stored)) (nsqrt O (vnorm2 now))) in
     nsub O (nmul O (nmul O (ndiv O (nofZ O 3) (nofZ O 2)) c) c) (nhalf O).
+
+  (* value types as lists of components, with the operations of colvarvalue / the cvc metric *)
+  Inductive vkind := KScalar | KPeriodic (period center : T) | KVector3 | KUnit3.
+  Fixpoint lv_add (a b : list T) : list T :=
+    match a, b with x :: ar, y :: br => nadd O x y :: lv_add ar br | _, _ => [] end.
+  Fixpoint lv_sub (a b : list T) : list T :=
+    match a, b with x :: ar, y :: br => nsub O x y :: lv_sub ar br | _, _ => [] end.
+  Definition lv_scale (c : T) (a : list T) : list T := map (fun x => nmul O x c) a.
+  (* cvc::dist2 of a periodic scalar: shortest image *)
+  Definition pimage (p d : T) : T := nsub O d (nmul O (nofZ O (nfloor O (nadd O (ndiv O d p) (nhalf O)))) p).
+  (* colvarvalue::apply_constraints, then colvar::wrap (cvc::wrap: x -= floor((x - center)/period + 0.5) period) *)
+  Definition lv_constrain (k : vkind) (a : list T) : list T :=
+    match k with
+    | KUnit3 => let n := nsqrt O (vnorm2 a) in map (fun x => ndiv O x n) a
+    | KPeriodic p c =>
+        match a with
+        | x :: _ => [nsub O x (nmul O (nofZ O (nfloor O (nadd O (ndiv O (nsub O x c) p) (nhalf O)))) p)]
+        | [] => []
+        end
+    | _ => a
+    end.
+  (* what calc_runave adds for a stored value xi when the current value is x:
+     periodic scalar: x + 0.5 * dist2_lgrad(xi, x) = x + 0.5 * (2 * image(xi - x)) *)
+  Definition lv_near (k : vkind) (x xi : list T) : list T :=
+    match k with
+    | KPeriodic p _ =>
+        let x0 := hd (n0 O) x in
+        [nadd O x0 (nmul O (nhalf O) (nmul O (nofZ O 2) (pimage p (nsub O (hd (n0 O) xi) x0))))]
+    | _ => xi
+    end.
+  (* colvar::dist2 *)
+  Definition lv_dist2 (k : vkind) (a b : list T) : T :=
+    match k with
+    | KPeriodic p _ => let d := pimage p (nsub O (hd (n0 O) a) (hd (n0 O) b)) in nmul O d d
+    | KUnit3 =>
+        let c := vdot a b in
+        let c1 := if nltb O (n1 O) c then n1 O else if nltb O c (nneg O (n1 O)) then nneg O (n1 O) else c in
+        let th := nacos O c1 in nmul O th th
+    | _ => vnorm2 (lv_sub a b)
+    end.
+  Definition lv_ops (k : vkind) : vops (V := list T) := mkVops lv_add lv_scale (lv_near k) (lv_constrain k) (lv_dist2 k).
 
   Inductive acf_type := AcfVel | AcfCoor | AcfP2.
   Definition acf_pair (ty : acf_type) : list T -> list T -> T :=
